@@ -32,6 +32,30 @@ pub struct Case {
     pub list: Option<Vec<u8>>,
     /// "assert" | "register" | "store:<name>"
     pub op: String,
+    /// transports hints carried by the list's descriptors: 0 none, 1 all ["usb"] (disjoint from the
+    /// authenticator's own transports), 2 all ["internal"], 3 alternating usb / internal+hybrid, 4 empty lists
+    #[serde(default)]
+    pub hints: u8,
+}
+
+fn hinted(ids: &Option<Vec<Vec<u8>>>, hints: u8) -> Option<Vec<passkey_types::webauthn::PublicKeyCredentialDescriptor>> {
+    use passkey_types::webauthn::AuthenticatorTransport as T;
+    ids.as_ref().map(|l| {
+        l.iter()
+            .enumerate()
+            .map(|(i, id)| {
+                let mut d = descriptor(id);
+                d.transports = match hints {
+                    0 => None,
+                    1 => Some(vec![T::Usb]),
+                    2 => Some(vec![T::Internal]),
+                    3 => Some(if i % 2 == 0 { vec![T::Usb, T::Nfc] } else { vec![T::Internal, T::Hybrid] }),
+                    _ => Some(vec![]),
+                };
+                d
+            })
+            .collect()
+    })
 }
 
 fn lists(tier: Tier) -> Vec<Option<Vec<u8>>> {
@@ -63,14 +87,17 @@ pub fn cases(tier: Tier) -> Vec<Case> {
             for list in lists(tier) {
                 for newest_first in [true, false] {
                     for op in ["assert", "register"] {
-                        v.push(Case { content, newest_first, rp, list: list.clone(), op: op.into() });
+                        let hs: &[u8] = if list.as_ref().map_or(true, |l| l.is_empty()) { &[0] } else { &[0, 1, 2, 3, 4] };
+                        for &hints in hs {
+                            v.push(Case { content, newest_first, rp, list: list.clone(), op: op.into(), hints });
+                        }
                     }
                 }
                 for s in SHIPPED {
                     if s.contains("Option") && content.count_ones() > 1 {
                         continue;
                     }
-                    v.push(Case { content, newest_first: false, rp, list: list.clone(), op: format!("store:{s}") });
+                    v.push(Case { content, newest_first: false, rp, list: list.clone(), op: format!("store:{s}"), hints: 0 });
                 }
             }
         }
@@ -97,7 +124,8 @@ fn eval_authenticator(c: &Case) -> (Vec<Finding>, String) {
     let mut bad = |kind: &str, d: String| fs.push(Finding::new(format!("op={}/kind={kind}", c.op), d, case.clone()));
     let outcome;
     if c.op == "assert" {
-        let req = ga_request(rp, ids.clone(), false, true, true, false, None);
+        let mut req = ga_request(rp, ids.clone(), false, true, true, false, None);
+        req.allow_list = hinted(&ids, c.hints);
         match par::catch(|| block_on(auth.get_assertion(req))) {
             Err(p) => {
                 bad("panic", format!("get_assertion panicked: {p}"));
@@ -139,7 +167,8 @@ fn eval_authenticator(c: &Case) -> (Vec<Finding>, String) {
             }
         }
     } else {
-        let req = mc_request(rp, &[7], ids.clone(), true, true, true, false, None);
+        let mut req = mc_request(rp, &[7], ids.clone(), true, true, true, false, None);
+        req.exclude_list = hinted(&ids, c.hints);
         let r = par::catch(|| block_on(auth.make_credential(req)));
         let after = store.recs();
         let should_exclude = nonempty.is_some() && !listed.is_empty();
@@ -291,7 +320,7 @@ pub fn run(ctx: &Ctx) -> Result<Run, String> {
     let n = cs.len() as u64;
     let mut run = Run::from_stats(
         "model_checking",
-        "universe of 4 credentials (2 RPs x 2, equal user handles across RPs): all 16 store contents x RP in {a, b, RP without credentials} x lists {absent, empty, sub-lists of the 4 ids + 1 unknown id (size <= 2 in both orders quick, all 31 thorough)} x listing order {newest, oldest first} for get_assertion (allow list) and make_credential (exclude list) on the real Authenticator over the contract store; and the same contents/lists/RPs against find_credentials of MemoryStore, Option<Passkey> and their four lock wrappers (wrappers compared with the store they wrap). Non-trivial = distinct case with a non-empty store",
+        "universe of 4 credentials (2 RPs x 2, equal user handles across RPs): all 16 store contents x RP in {a, b, RP without credentials} x lists {absent, empty, sub-lists of the 4 ids + 1 unknown id (size <= 2 in both orders quick, all 31 thorough)} x transports hints on the descriptors {none, disjoint from the authenticator's, overlapping, mixed, empty} x listing order {newest, oldest first} for get_assertion (allow list) and make_credential (exclude list) on the real Authenticator over the contract store; and the same contents/lists/RPs against find_credentials of MemoryStore, Option<Passkey> and their four lock wrappers (wrappers compared with the store they wrap). Non-trivial = distinct case with a non-empty store",
         true,
         stats,
     );
